@@ -129,28 +129,111 @@ def _child(case: Dict[str, Any], q: Any) -> None:
         q.put('started')
         real = run_native(core, img, cfg)
         want = run_reference(img)
-        differs = False
-        why = []
-        for k in ('status', 'ops', 'out', 'reads'):
-            if real.get(k) != want.get(k):
-                differs = True
-                why.append(k)
-        if real.get('status') == want.get('status') == pyspec.MEMERR and real.get('fault') != want.get('fault'):
-            differs = True
-            why.append('fault')
-        for k, v in want['final'].items():
-            if k in real.get('final', {}) and real['final'][k] != v and isinstance(real.get('status'), int):
-                differs = True
-                why.append(f'word {k}')
-        if cfg.get('ring') and isinstance(real.get('status'), int):
-            L = cfg['ring']
-            if real.get('last_ops') != want['started'][-L:]:
-                differs = True
-                why.append('last_ops')
+        differs, why = _compare(real, want, cfg)
+        if not differs:
+            # the one-op harness starts from an ARBITRARY loop-header state; a state that only a previous op can set up (cached
+            # pointers, speculation registers) is reached concretely by running an aligned trampoline op first
+            img2 = with_trampoline(img)
+            if img2 is not None:
+                real2, want2 = run_native(core, img2, cfg), run_reference(img2)
+                d2, why2 = _compare(real2, want2, cfg)
+                if d2:
+                    q.put({'differs': True, 'fields': why2, 'real': real2, 'reference': {k: v for k, v in want2.items() if k != 'started'},
+                           'image': img2, 'note': 'reproduced with an aligned trampoline op in front of the counterexample op'})
+                    return
+        if not differs and cfg.get('signals'):
+            # a counterexample about the state at an interrupt: no one-op image reaches the signal poll (it runs every 2^k ops);
+            # exercise the poll concretely and check that the reported op count is the number of ops whose effects are in memory
+            rep = interrupt_scenario(core, cfg)
+            if rep.get('differs'):
+                q.put(rep)
+                return
         q.put({'differs': differs, 'fields': why, 'real': real, 'reference': {k: v for k, v in want.items() if k != 'started'}, 'image': img})
-    except Exception as e:  # noqa: BLE001
+    except Exception:  # noqa: BLE001
         import traceback
         q.put({'differs': False, 'error': traceback.format_exc()[-600:]})
+
+
+def interrupt_scenario(core: Any, cfg: Dict[str, Any], seconds: float = 0.4) -> Dict[str, Any]:
+    """a 3-op cycle, op k flips bit k of a data word (a 6-phase counter of executed ops), no IO; SIGALRM raises KeyboardInterrupt
+    through PyErr_CheckSignals inside the native loop; the reported op count must be in phase with the memory"""
+    import signal
+    w = cfg['w']
+    if cfg.get('mode') == 'paged':
+        os.environ['FLIPJUMP_NO_FLAT'] = '1'
+    else:
+        os.environ.pop('FLIPJUMP_NO_FLAT', None)
+    if cfg.get('loop') == 'run_measured_loop':
+        os.environ['FLIPJUMP_MEASURE_SPECULATION'] = '1'
+    else:
+        os.environ.pop('FLIPJUMP_MEASURE_SPECULATION', None)
+    mem = core.Memory(w)
+    mem.add_segment(0, 12)
+    X = 10
+    for k in range(3):
+        mem.set_word(4 + 2 * k, X * w + k)                    # flip bit k of word X
+        mem.set_word(5 + 2 * k, (4 + 2 * ((k + 1) % 3)) * w)  # jump to the next op of the cycle
+    mem.set_word(X, 0)
+
+    def on_alarm(signum: int, frame: Any) -> None:
+        raise KeyboardInterrupt()
+    old = signal.signal(signal.SIGALRM, on_alarm)
+    signal.setitimer(signal.ITIMER_REAL, seconds)
+    interrupted = False
+    try:
+        mem.run(lambda: False, lambda b: None, EOFError, last_ops_length=cfg.get('ring', 0), start_ip=4 * w)
+    except KeyboardInterrupt:
+        interrupted = True
+    finally:
+        signal.setitimer(signal.ITIMER_REAL, 0)
+        signal.signal(signal.SIGALRM, old)
+    if not interrupted:
+        return {'differs': False, 'why': 'the interrupt scenario ended without an interrupt'}
+    ops = mem.last_run_op_count
+    bits = mem.get_word(X) & 7
+    phases = {0: 0b000, 1: 0b001, 2: 0b011, 3: 0b111, 4: 0b110, 5: 0b100}      # bit k = parity of the executions of op k
+    ok = phases[ops % 6] == bits
+    return {'differs': not ok, 'fields': ['ops'] if not ok else [], 'scenario': 'interrupt (SIGALRM -> KeyboardInterrupt at the signal poll) '
+            'of a 3-op cycle that counts its ops in memory', 'reported_ops': ops, 'reported_ops_mod_6': ops % 6,
+            'memory_phase_bits': bits, 'phase_bits_for_that_count': phases[ops % 6], 'storage': mem.storage_mode}
+
+
+def with_trampoline(img: Dict[str, Any]) -> Optional[Dict[str, Any]]:
+    w = img['w']
+    used = {int(k) for k in img['words']}
+    segs = img['segments']
+    valid = lambda a: any(s <= a < e for s, e in segs)  # noqa: E731
+    fc = img.get('flat_count') or (1 << 62)
+    for s, e in segs:
+        for tw in range(max(s, 4), min(e - 1, max(s, 4) + 4096)):
+            if valid(tw + 1) and tw + 1 < fc and not {tw, tw + 1} & used and (tw + 2) * w < (1 << w) and img['ip'] >= 2 * w:
+                words = dict(img['words'])
+                words[str(tw)] = tw * w + (w - 1)          # flips the top bit of its own flip word (after fetching it): harmless
+                words[str(tw + 1)] = img['ip']
+                return dict(img, words=words, ip=tw * w)
+    return None
+
+
+def _compare(real: Dict[str, Any], want: Dict[str, Any], cfg: Dict[str, Any]) -> Tuple[bool, List[str]]:
+    differs = False
+    why: List[str] = []
+    for k in ('status', 'ops', 'out', 'reads'):
+        if real.get(k) != want.get(k):
+            differs = True
+            why.append(k)
+    if real.get('status') == want.get('status') == pyspec.MEMERR and real.get('fault') != want.get('fault'):
+        differs = True
+        why.append('fault')
+    for k, v in want['final'].items():
+        if k in real.get('final', {}) and real['final'][k] != v and isinstance(real.get('status'), int):
+            differs = True
+            why.append(f'word {k}')
+    if cfg.get('ring') and isinstance(real.get('status'), int):
+        L = cfg['ring']
+        if real.get('last_ops') != want['started'][-L:]:
+            differs = True
+            why.append('last_ops')
+    return differs, why
 
 
 def replay_case(case: Dict[str, Any], timeout: int = 60) -> Dict[str, Any]:
